@@ -14,7 +14,7 @@ import (
 )
 
 var Spec = engine.Spec{
-	ID: "C15", Run: Run, MapOrders: true, QuickBud: 4 * time.Minute, ThorBud: 25 * time.Minute,
+	ID: "C15", Run: Run, MapOrders: true, QuickBud: 4 * time.Minute, ThorBud: 45 * time.Minute,
 	Technique: "explicit enumeration of all small directed multigraphs x root sets x start nodes x depths, real NodeGraph/NodeSiblings/NodeDescendants against a BFS reference model; all permutations of node and edge lists",
 	Rule:      "case = (node ids, ordered edge-object list, root subset, start id); distinct state = canonical graph key + start; every case runs NodeGraph, NodeSiblings and NodeDescendants(1..n+1)",
 	Assume:    []string{"edge lower bound read as: every edge leaving an expanded node towards a returned node is kept"},
